@@ -190,7 +190,7 @@ def s_json_loads(I, recv, args, kw):
     trusted(I)
     c = I.st.choice(3, 'json_loads')
     if c == 1:
-        lib.raise_(I, 'ValueError', VStr('JSONDecodeError'))
+        lib.raise_(I, 'JSONDecodeError', VStr('not (yet) a JSON document'))     # a ValueError subclass (exc_parents of the spec)
     if c == 2:
         lib.raise_(I, 'RecursionError', VStr('maximum recursion depth exceeded'))
     j = JsonV(core.fresh('json', A()))
